@@ -15,7 +15,8 @@ How a record is made (all steps are real antiSMASH / Biopython code, nothing is 
   1. a Biopython SeqRecord with complete header annotations (molecule_type, topology, source, organism,
      taxonomy, date, accessions, version, keywords, optionally a reference), a `source` feature, `gene` and
      `CDS` features (1-3 exons, both strands, codon_start 1/2/3, trailing bases, locus_tag / protein_id /
-     gene naming variants, origin-spanning genes on circular records), misc features with notes;
+     gene naming variants, origin-spanning genes on circular records), misc features with notes, now and then
+     a foreign CDS_motif (no aSTool);
   2. written as GenBank text and parsed again (that is what antiSMASH reads; it pins Biopython's own
      representation of headers and valueless qualifiers) -> Record.from_biopython(bio, "bacteria");
   3. annotations through the real API: gene functions, sec_met domains, NRPS_PKS qualifier domains,
@@ -201,6 +202,12 @@ def gen_spec(rng: random.Random, circular=None, length=None, max_genes: int = 14
                                  "parts": [[s, s + rng.randrange(10, 50)]], "strand": rng.choice([1, -1, 1]),
                                  "quals": rng.choice([{"note": ["something of interest"]}, {"product": ["tRNA-Ala"]},
                                                       {"note": ["z", "y"], "standard_name": ["thing"]}])})
+        if rng.random() < 0.15:
+            # a CDS_motif that is not antiSMASH's (no aSTool): kept as ExternalCDSMotif
+            s = rng.randrange(0, length - 50)
+            spec["misc"].append({"type": "CDS_motif", "parts": [[s, s + 30]], "strand": rng.choice([1, -1]),
+                                 "quals": rng.choice([{"note": ["external motif"]},
+                                                      {"note": ["external motif"], "label": ["ext_label"]}])})
     _gen_annotations(rng, spec, rich)
     return spec
 
@@ -686,6 +693,7 @@ def facts(record) -> dict:
                               + list(record.get_subregions()) + list(record.get_regions()) if f.crosses_origin()),
         "pfams": len(record.get_pfam_domains()), "asdomains": len(record.get_antismash_domains()),
         "motifs": sum(1 for m in record.get_cds_motifs() if not isinstance(m, Prepeptide)),
+        "external_motifs": sum(1 for m in record.get_cds_motifs() if type(m).__name__ == "ExternalCDSMotif"),
         "prepeptides": sum(1 for m in record.get_cds_motifs() if isinstance(m, Prepeptide)),
         "modules": len(record.get_modules()),
         "multi_cds_modules": sum(1 for m in record.get_modules() if m.is_multigene_module()),
